@@ -4,8 +4,8 @@ import MokapotVerif.Props.C01Arr
 # C01 — the score array on its way into the sort: dtype cast, sort key, rescaling on the scores present
 
 Property theorems only.  `Model/QvaluesKey.lean` adds what `tdc` does to the score array before it
-ranks: integer dtypes are cast to float32 (`f32OfInt`: exact below 2^24, round-to-nearest-even
-beyond), and the `argsort` is the *ascending* one on `-scores` (higher is better) or `scores`.
+ranks: integer dtypes are cast to float64 (`f64OfInt`: exact below 2^53, round-to-nearest-even
+beyond; float32 / 2^24 until /repo 36ef8db — now the refuted variant `Mutants.cast_merges_above_2p24`), and the `argsort` is the *ascending* one on `-scores` (higher is better) or `scores`.
 `tdcEntry` is `tdc` as called with the score dtype explicit.  All statements are for lists of
 arbitrary length.
 -/
@@ -84,15 +84,15 @@ theorem C01_entry_errors (desc : Bool) (scores : ScoreArr) (labels : LabelArr) :
   · intro h; simp [h, Option.elim, Except.map]
   · intro bs h hl; simp [h, hl, Option.elim, Except.map]
 
-/-- qvalues.py:106-107: the float32 a small integer becomes is the integer itself -/
-theorem C01_f32_cast_exact_below_2p24 (x : Int) (h : x.natAbs < 2 ^ 24) : f32OfInt x = x :=
-  f32OfInt_small h
+/-- qvalues.py:106-107: the float64 an integer below 2^53 becomes is the integer itself -/
+theorem C01_f64_cast_exact_below_2p53 (x : Int) (h : x.natAbs < 2 ^ 53) : f64OfInt x = x :=
+  f64OfInt_small h
 
-/-- **integer scores** ("small-integer dtype"): whenever the float32 cast keeps the order of
+/-- **integer scores** ("small-integer dtype"): whenever the float64 cast keeps the order of
 the scores present (no two distinct scores merged), `tdc` returns the defining formula *of the
 integers themselves*, in both directions — the cast and the negation of the cast values do no harm. -/
 theorem C01_entry_ints_eq_spec (desc : Bool) (xs : List Int) (labels : LabelArr) (r : Option (List Rat))
-    (hemb : ∀ a ∈ xs, ∀ b ∈ xs, (f32OfInt a ≤ f32OfInt b ↔ a ≤ b)) :
+    (hemb : ∀ a ∈ xs, ∀ b ∈ xs, (f64OfInt a ≤ f64OfInt b ↔ a ≤ b)) :
     tdcEntry desc (.ints xs) labels = .ok r ↔
       ∃ bs, decodeLabels labels = some bs ∧ xs.length = bs.length ∧
         r = some ((xs.zip bs).map (fun x => qSpec (dirLe leqZ desc) (xs.zip bs) x.1)) := by
@@ -103,15 +103,15 @@ theorem C01_entry_ints_eq_spec (desc : Bool) (xs : List Int) (labels : LabelArr)
     simp only [Option.elim, List.length_map]
     by_cases hl : xs.length = bs.length
     · simp only [hl, if_true, Except.map, Except.ok.injEq, Option.some.injEq, exists_eq_left', true_and]
-      have hz : (xs.map (fun x => ((f32OfInt x : Int) : Rat))).zip bs
-          = (xs.zip bs).map (fun x => (((f32OfInt x.1 : Int) : Rat), x.2)) := by
+      have hz : (xs.map (fun x => ((f64OfInt x : Int) : Rat))).zip bs
+          = (xs.zip bs).map (fun x => (((f64OfInt x.1 : Int) : Rat), x.2)) := by
         rw [List.zip_map_left]
         apply List.map_congr_left
         intro x _
         rfl
       rw [hz, tdcKeyArr_eq_tdc,
         C01_tdc_mono_on_invariant (dirLe leqZ desc) (leqZ_linear.totalPre desc) (dirLe leqQ desc)
-          (leqQ_linear.totalPre desc) (fun x => ((f32OfInt x : Int) : Rat)) (xs.zip bs),
+          (leqQ_linear.totalPre desc) (fun x => ((f64OfInt x : Int) : Rat)) (xs.zip bs),
         C01_tdc_eq_spec _ (leqZ_linear.totalPre desc)]
       · exact eq_comm
       · intro a ha b hb
@@ -124,16 +124,16 @@ theorem C01_entry_ints_eq_spec (desc : Bool) (xs : List Int) (labels : LabelArr)
           exact hemb a.1 ha' b.1 hb'
     · simp [hl, Except.map]
 
-/-- … in particular for every integer score vector with magnitudes below 2^24 (all of int8,
-uint8, int16, uint16 and the small values of the wider dtypes) -/
+/-- … in particular for every integer score vector with magnitudes below 2^53 (all of int8 …
+uint32 and every value of int64 / uint64 a double holds exactly) -/
 theorem C01_entry_small_ints_eq_spec (desc : Bool) (xs : List Int) (labels : LabelArr) (r : Option (List Rat))
-    (hsmall : ∀ a ∈ xs, a.natAbs < 2 ^ 24) :
+    (hsmall : ∀ a ∈ xs, a.natAbs < 2 ^ 53) :
     tdcEntry desc (.ints xs) labels = .ok r ↔
       ∃ bs, decodeLabels labels = some bs ∧ xs.length = bs.length ∧
         r = some ((xs.zip bs).map (fun x => qSpec (dirLe leqZ desc) (xs.zip bs) x.1)) := by
   apply C01_entry_ints_eq_spec
   intro a ha b hb
-  rw [f32OfInt_small (hsmall a ha), f32OfInt_small (hsmall b hb)]
+  rw [f64OfInt_small (hsmall a ha), f64OfInt_small (hsmall b hb)]
 
 /-- training labels through the entry with float scores: exactly the targets with `q ≤ thr`
 (q the defining formula) are +1, all decoys −1, every other target 0 -/
@@ -160,7 +160,7 @@ theorem C01_labels_entry_exact (desc : Bool) (thr : Rat) (xs : List Rat) (labels
 /-- … and with integer scores whose cast keeps the order of the scores present: the labels of
 the formula on the integers themselves -/
 theorem C01_labels_entry_ints_exact (desc : Bool) (thr : Rat) (xs : List Int) (labels : LabelArr)
-    (r : Option (List Int)) (hemb : ∀ a ∈ xs, ∀ b ∈ xs, (f32OfInt a ≤ f32OfInt b ↔ a ≤ b)) :
+    (r : Option (List Int)) (hemb : ∀ a ∈ xs, ∀ b ∈ xs, (f64OfInt a ≤ f64OfInt b ↔ a ≤ b)) :
     updateLabelsEntry desc thr (.ints xs) labels = .ok r ↔
       ∃ bs, decodeLabels labels = some bs ∧ xs.length = bs.length ∧
         r = some ((xs.zip bs).map (fun x =>
@@ -173,14 +173,14 @@ theorem C01_labels_entry_ints_exact (desc : Bool) (thr : Rat) (xs : List Int) (l
     simp only [Option.elim, List.length_map]
     by_cases hl : xs.length = bs.length
     · simp only [hl, if_true, Except.map, Except.ok.injEq, Option.some.injEq, exists_eq_left', true_and]
-      have hz : (xs.map (fun x => ((f32OfInt x : Int) : Rat))).zip bs
-          = (xs.zip bs).map (fun x => (((f32OfInt x.1 : Int) : Rat), x.2)) := by
+      have hz : (xs.map (fun x => ((f64OfInt x : Int) : Rat))).zip bs
+          = (xs.zip bs).map (fun x => (((f64OfInt x.1 : Int) : Rat), x.2)) := by
         rw [List.zip_map_left]
         apply List.map_congr_left
         intro x _
         rfl
       have hf : ∀ a ∈ xs.zip bs, ∀ b ∈ xs.zip bs,
-          dirLe leqQ desc ((f32OfInt a.1 : Int) : Rat) ((f32OfInt b.1 : Int) : Rat) = dirLe leqZ desc a.1 b.1 := by
+          dirLe leqQ desc ((f64OfInt a.1 : Int) : Rat) ((f64OfInt b.1 : Int) : Rat) = dirLe leqZ desc a.1 b.1 := by
         intro a ha b hb
         have ha' := (List.of_mem_zip ha).1
         have hb' := (List.of_mem_zip hb).1
@@ -190,7 +190,7 @@ theorem C01_labels_entry_ints_exact (desc : Bool) (thr : Rat) (xs : List Int) (l
         · simp only [dirLe, leqQ, leqZ, if_true, decide_eq_decide, Int.cast_le]
           exact hemb a.1 ha' b.1 hb'
       have h1 := C01_labels_mono_on_invariant (dirLe leqZ desc) (leqZ_linear.totalPre desc) (dirLe leqQ desc)
-        (leqQ_linear.totalPre desc) (fun x => ((f32OfInt x : Int) : Rat)) thr (xs.zip bs) hf
+        (leqQ_linear.totalPre desc) (fun x => ((f64OfInt x : Int) : Rat)) thr (xs.zip bs) hf
       have h2 := C01_labels_exact (dirLe leqZ desc) (leqZ_linear.totalPre desc) thr (xs.zip bs)
       rw [h2] at h1
       unfold updateLabels at h1
@@ -202,11 +202,11 @@ theorem C01_labels_entry_ints_exact (desc : Bool) (thr : Rat) (xs : List Int) (l
 
 /-- the order-embedding hypothesis holds for a vector holding the extremes of int64 next to
 small values (the cast is exact or rounds without merging), and fails once two distinct
-scores above 2^24 round to one float32 -/
+scores above 2^53 round to one float64 -/
 example :
     (∀ a ∈ [-(2 ^ 63 : Int), -128, 0, 255, 2 ^ 63 - 1], ∀ b ∈ [-(2 ^ 63 : Int), -128, 0, 255, 2 ^ 63 - 1],
-      (f32OfInt a ≤ f32OfInt b ↔ a ≤ b)) ∧
-    ¬ (∀ a ∈ [(2 ^ 24 + 1 : Int), 2 ^ 24], ∀ b ∈ [(2 ^ 24 + 1 : Int), 2 ^ 24], (f32OfInt a ≤ f32OfInt b ↔ a ≤ b)) := by
+      (f64OfInt a ≤ f64OfInt b ↔ a ≤ b)) ∧
+    ¬ (∀ a ∈ [(2 ^ 53 + 1 : Int), 2 ^ 53], ∀ b ∈ [(2 ^ 53 + 1 : Int), 2 ^ 53], (f64OfInt a ≤ f64OfInt b ↔ a ≤ b)) := by
   decide +kernel
 
 /-- an ascending arrangement on the key other than the stable one exists (ties in reversed
@@ -222,8 +222,9 @@ example : let xs : List (Rat × Bool) := [(4, true), (4, false), (5, true)]
 #guard tdcEntry true (.ints [-128, 5, 127]) (.ints [1, 0, 1]) == .ok (some [1, 1, 1])
 #guard tdcEntry false (.ints [-128, 5, 127]) (.ints [1, 0, 1]) == .ok (some [1, 1, 1])
 #guard tdcEntry true (.floats [5, 4, 4, 3]) (.floats [1, 1, 0, 1]) == .ok (some [2/3, 2/3, 2/3, 2/3])
--- beyond 2^24 the cast merges distinct integers (recorded boundary of "small-integer dtype")
-#guard tdcEntry true (.ints [2 ^ 24 + 2, 2 ^ 24 + 1, 2 ^ 24]) (.bools [true, true, false]) == .ok (some [1, 1, 1])
+-- integers beyond 2^24 stay apart (float64 cast since /repo 36ef8db); beyond 2^53 the cast merges distinct integers
+#guard tdcEntry true (.ints [2 ^ 24 + 2, 2 ^ 24 + 1, 2 ^ 24]) (.bools [true, true, false]) == .ok (some [1/2, 1/2, 1])
+#guard tdcEntry true (.ints [2 ^ 53 + 2, 2 ^ 53 + 1, 2 ^ 53]) (.bools [true, true, false]) == .ok (some [1, 1, 1])
 #guard tdcEntry true (.floats [2 ^ 24 + 2, 2 ^ 24 + 1, 2 ^ 24]) (.bools [true, true, false]) == .ok (some [1/2, 1/2, 1])
 #guard tdcEntry true (.ints [3, 2]) (.ints [1, 2]) == .error .notBoolean
 #guard tdcEntry true (.ints [3, 2, 1]) (.ints [1, 0]) == .error .lengthMismatch
